@@ -2,10 +2,16 @@ package main
 
 // locks.go — the lock/access table for C37 (Gen/Locks.lean).
 //
-// For an explicit list of shared fields (lockFields) every syntactic access site in the root package is emitted as a row
+// Which fields: the explicit list lockFields PLUS, inferred on every run, every field of a package struct that is written
+// while a mutex is held somewhere (its guard = that mutex; then EVERY access, reads included, must hold it) and every
+// field that is accessed atomically somewhere (then every access must be atomic).  Exceptions are explicit tables:
+// ctorAllow (pre-sharing configuration), exemptAllow (single access sites), noGuardInference (fields whose lock is
+// incidental), each with its reason.  For these fields every syntactic access site in the root package is emitted as a row
 //   (type, field, function, kind, class, locks held)            -- file:line
 // kind : "w"  the field itself is assigned (x.f = …, x.f++, &x.f taken)
-//        "cw" the content is written (x.f[k] = …, delete(x.f, k), copy(x.f[…], …), a method is called on x.f)
+//        "cw" the content is written (x.f[k] = …, delete(x.f, k), copy(x.f[…], …))
+//        "cm" a method is called on x.f (judged like a content write; not used to INFER a guard: calling a method of
+//             an interface value or of an internally synchronised object while some lock is held says nothing)
 //        "r"  the field is read as a value / handle (passed, returned, compared, ranged by alias)
 //        "cr" the content is read (x.f[k], range x.f, len(x.f), x.f.g)
 // class: "locked"  ordinary access; the last column lists the mutexes syntactically held there
@@ -75,16 +81,49 @@ var lockFields = []lockField{
 	{"tcpAddrEntry", "pending", "atomic"},
 	{"tcpAddrEntry", "addrs", "immutable"},
 	{"tcpAddrEntry", "resolveTime", "immutable"},
+	// found by the guard inference (below) on the pinned tree and made explicit, so that removing the lock at EVERY
+	// write site of one of them cannot make the inference forget the field:
+	{"HostClient", "MaxConns", "lock:connsLock"},
+	{"HostClient", "addrIdx", "lock:addrsLock"},
+	{"HostClient", "addrs", "lock:addrsLock"},
+	{"HostClient", "lastUseTime", "atomic"},
+	{"HostClient", "tlsConfigMap", "lock:tlsConfigMapLock"},
+	{"Server", "TLSConfig", "lock:mu"},
+	{"Server", "concurrencyCh", "lock:mu"},
+	{"Server", "doneClosed", "lock:mu"},
+	{"Server", "rejectedRequestsCount", "atomic"},
+	{"Server", "serveLoops", "atomic"},
+	{"TCPDialer", "cleanerRunning", "atomic"},
+	{"compressedBodyStream", "originalClosed", "lock:originalLock"},
+	{"fileLock", "refs", "lock:filesLockMu"},
+	{"fsFile", "bigFiles", "lock:bigFilesLock"},
+	{"pipelineConnClient", "tlsConfig", "lock:tlsConfigLock"},
+	{"wantConn", "conn", "lock:mu"},
+	{"wantConn", "err", "lock:mu"},
+	{"wantConn", "ready", "lock:mu"},
+	{"wantConnQueue", "head", "lock:connsLock"},
+	{"wantConnQueue", "headPos", "lock:connsLock"},
+	{"wantConnQueue", "tail", "lock:connsLock"},
 }
 
 // constructors / initialisation that runs before the object is reachable from another goroutine
-var ctorAllow = map[string]string{}
+var ctorAllow = map[string]string{
+	"Server.NextProto": "documented: \"This function can only be called before the server is started\" — configuration before the Server is shared",
+}
+
+// fields for which no guard is inferred although some write happens while a mutex is held: "Type.field" -> reason.
+// (Every entry is a claim that the lock held at that write is incidental; each is justified here.)
+var noGuardInference = map[string]string{
+	"perIPConn.Conn":    "the embedded net.Conn is used lock-free by the promoted Read/Write of the connection's only owner; perIPConn.lock only makes a second Close idempotent, and the wrapper changes owner through sync.Pool (acquirePerIPConn). A late Close by a former owner after recycling is the defect recorded for C12/C17, not a lock-discipline matter",
+	"perIPTLSConn.Conn": "as perIPConn.Conn",
+}
 
 // documented exceptions: "Type.func field" -> reason
 var exemptAllow = map[string]string{
-	"Client.hostClient m":  "handle read after c.mOnce.Do in Client.Do, hostClient's only caller: ordered after the once-guarded creation of the map by sync.Once; the map content is read/written under mLock",
-	"Client.hostClient ms": "as Client.hostClient m",
-	"RequestCtx.Done done": "read of s.done by a running handler; Shutdown writes s.done=nil only after it observed open==0 (atomic), i.e. after every handler returned, and Serve creates it before accepting: ordered by the open counter, not by s.mu",
+	"TimeoutWithCodeHandler concurrencyCh": "read of s.concurrencyCh by a running handler: the channel is created once (nil → chan) under s.mu at the start of the first Serve/ServeConn, before that call serves anything, and never replaced; every handler runs after its own Serve/ServeConn went through that critical section, so the read is ordered after the only write by s.mu's release→acquire edge",
+	"Client.hostClient m":                  "handle read after c.mOnce.Do in Client.Do, hostClient's only caller: ordered after the once-guarded creation of the map by sync.Once; the map content is read/written under mLock",
+	"Client.hostClient ms":                 "as Client.hostClient m",
+	"RequestCtx.Done done":                 "read of s.done by a running handler; Shutdown writes s.done=nil only after it observed open==0 (atomic), i.e. after every handler returned, and Serve creates it before accepting: ordered by the open counter, not by s.mu",
 }
 
 // ---------------------------------------------------------------------------------------------
@@ -119,12 +158,14 @@ func typeOfExprAST(e ast.Expr) *lkType {
 }
 
 type lkPkg struct {
-	structs map[string]map[string]*lkType // type -> field -> type
-	funcRet map[string]*lkType            // "func" or "Type.method" -> first result type
-	funcs   []*ast.FuncDecl
-	fileOf  map[*ast.FuncDecl]string
-	imports map[string]map[string]bool // file -> imported package names
-	globals map[string]*lkType         // package-level variables
+	structs  map[string]map[string]*lkType // type -> field -> type
+	funcRet  map[string]*lkType            // "func" or "Type.method" -> first result type
+	funcs    []*ast.FuncDecl
+	fileOf   map[*ast.FuncDecl]string
+	imports  map[string]map[string]bool // file -> imported package names
+	globals  map[string]*lkType         // package-level variables
+	embedded map[string][]string        // struct type -> embedded struct type names
+	mutexes  map[string]bool            // names of all sync.Mutex / sync.RWMutex struct fields of the package
 }
 
 func recvTypeName(fd *ast.FuncDecl) string {
@@ -136,7 +177,7 @@ func recvTypeName(fd *ast.FuncDecl) string {
 
 func buildLkPkg(p *pkgInfo) *lkPkg {
 	lp := &lkPkg{structs: map[string]map[string]*lkType{}, funcRet: map[string]*lkType{}, fileOf: map[*ast.FuncDecl]string{},
-		imports: map[string]map[string]bool{}, globals: map[string]*lkType{}}
+		imports: map[string]map[string]bool{}, globals: map[string]*lkType{}, embedded: map[string][]string{}, mutexes: map[string]bool{}}
 	var names []string
 	for n := range p.files {
 		names = append(names, n)
@@ -203,11 +244,19 @@ func buildLkPkg(p *pkgInfo) *lkPkg {
 							base := t.name
 							if i := strings.LastIndex(base, "."); i >= 0 {
 								base = base[i+1:]
+							} else if base != "" {
+								lp.embedded[ts.Name.Name] = append(lp.embedded[ts.Name.Name], base)
 							}
 							m[base] = t
+							if t.name == "sync.Mutex" || t.name == "sync.RWMutex" {
+								lp.mutexes[base] = true
+							}
 						}
 						for _, id := range fl.Names {
 							m[id.Name] = t
+							if t.name == "sync.Mutex" || t.name == "sync.RWMutex" {
+								lp.mutexes[id.Name] = true
+							}
 						}
 					}
 					lp.structs[ts.Name.Name] = m
@@ -289,6 +338,7 @@ type lkAnalysis struct {
 	entry     map[string]lockset   // helper key -> locks assumed at entry
 	callSites map[string][]lockset // helper key -> locksets at its call sites (this round)
 	rows      []lkRow
+	unres     []lkRow // selectors whose receiver type could not be resolved (field name only)
 	collect   bool
 }
 
@@ -329,10 +379,8 @@ func (f *lkFunc) typeOf(e ast.Expr) *lkType {
 	case *ast.SelectorExpr:
 		t := f.typeOf(x.X)
 		if t != nil && t.name != "" {
-			if st, ok := f.a.lp.structs[t.name]; ok {
-				if ft, ok := st[x.Sel.Name]; ok {
-					return ft
-				}
+			if _, ft, ok := f.a.lp.fieldOwner(t.name, x.Sel.Name, 0); ok {
+				return ft
 			}
 		}
 	case *ast.IndexExpr:
@@ -370,6 +418,38 @@ func (f *lkFunc) typeOf(e ast.Expr) *lkType {
 		}
 	}
 	return nil
+}
+
+// fieldOwner finds field f in struct type T or in a struct embedded in it (two levels): owner type and field type
+func (lp *lkPkg) fieldOwner(T, f string, depth int) (string, *lkType, bool) {
+	st, ok := lp.structs[T]
+	if !ok {
+		return "", nil, false
+	}
+	if ft, ok := st[f]; ok {
+		return T, ft, true
+	}
+	if depth >= 2 {
+		return "", nil, false
+	}
+	for _, emb := range lp.embedded[T] {
+		if o, ft, ok := lp.fieldOwner(emb, f, depth+1); ok {
+			return o, ft, true
+		}
+	}
+	return "", nil, false
+}
+
+// sync primitives are not data fields
+func isSyncPrimitive(t *lkType) bool {
+	if t == nil {
+		return false
+	}
+	switch t.name {
+	case "sync.Mutex", "sync.RWMutex", "sync.Once", "sync.WaitGroup", "sync.Pool", "sync.Cond", "noCopy":
+		return true
+	}
+	return false
 }
 
 func isFreshExpr(e ast.Expr) bool {
@@ -764,6 +844,9 @@ func (f *lkFunc) callSite(ce *ast.CallExpr, held lockset) {
 	if !isHelperName(name) {
 		return
 	}
+	if ctorAllow[f.key] != "" {
+		return // a call from documented pre-sharing configuration code does not count as a call site
+	}
 	key := name
 	if recv != "" {
 		key = recv + "." + name
@@ -804,6 +887,13 @@ func (f *lkFunc) expr(e ast.Expr, held lockset) {
 				if se, ok := p.Fun.(*ast.SelectorExpr); ok && se.Sel.Name == "Do" {
 					if t := f.typeOf(se.X); t != nil && t.name == "sync.Once" {
 						once = true
+					}
+				}
+			}
+			if x.Type != nil && x.Type.Params != nil {
+				for _, prm := range x.Type.Params.List {
+					for _, id := range prm.Names {
+						f.bind(id.Name, typeOfExprAST(prm.Type), false)
 					}
 				}
 			}
@@ -864,27 +954,29 @@ func (f *lkFunc) valueRef(n ast.Node, name string) {
 }
 
 func (f *lkFunc) selector(se *ast.SelectorExpr, held lockset) {
-	byType, ok := f.a.listed[se.Sel.Name]
-	if !ok || !f.a.collect {
+	if !f.a.collect {
 		return
 	}
 	pos := fset.Position(se.Pos())
 	where := fmt.Sprintf("%s:%d", filepath.Base(pos.Filename), pos.Line)
 	t := f.typeOf(se.X)
 	if t == nil || t.name == "" {
-		// receiver type unresolved. If the selector is a package-qualified name or a method value it is not ours;
-		// an identifier we know nothing about is reported as unknown.
+		// receiver type unresolved. A package-qualified name is not ours; anything else is remembered by field name and
+		// becomes an "unknown" row if that name is the name of a guarded field (decided after the guard inference).
 		if id, isId := se.X.(*ast.Ident); isId {
 			if _, known := f.env[id.Name]; !known && f.a.lp.imports[f.file][id.Name] {
 				return // package-qualified name: pkg.Name
 			}
 		}
-		f.a.rows = append(f.a.rows, lkRow{"?", se.Sel.Name, f.key, "r", "unknown", held.sorted(), where})
+		if p, ok := f.parents[se].(*ast.CallExpr); ok && p.Fun == ast.Expr(se) {
+			return // method call on something of unknown type: not a field access
+		}
+		f.a.unres = append(f.a.unres, lkRow{"?", se.Sel.Name, f.key, "r", "unknown", held.sorted(), where})
 		return
 	}
-	mode, listed := byType[t.name]
-	if !listed {
-		return
+	owner, ft, ok := f.a.lp.fieldOwner(t.name, se.Sel.Name, 0)
+	if !ok || isSyncPrimitive(ft) {
+		return // a method, a field of a type outside the package, or a mutex itself
 	}
 	kind, atomicUse := f.accessKind(se)
 	class := "locked"
@@ -900,8 +992,7 @@ func (f *lkFunc) selector(se *ast.SelectorExpr, held lockset) {
 			class = "init"
 		}
 	}
-	_ = mode
-	f.a.rows = append(f.a.rows, lkRow{t.name, se.Sel.Name, f.key, kind, class, held.sorted(), where})
+	f.a.rows = append(f.a.rows, lkRow{owner, se.Sel.Name, f.key, kind, class, held.sorted(), where})
 }
 
 func isAtomicType(t *lkType) bool {
@@ -927,7 +1018,7 @@ func (f *lkFunc) accessKind(se *ast.SelectorExpr) (kind string, atomicUse bool) 
 				return "cw", true
 			}
 			if gp, ok := f.parents[x].(*ast.CallExpr); ok && gp.Fun == ast.Expr(x) {
-				return "cw", false // method call on the field's value
+				return "cm", false // method call on the field's value (may mutate what it points to)
 			}
 			return "cr", false
 		}
@@ -1095,6 +1186,10 @@ func genLocks(p *pkgInfo, out string) {
 			a.universe["R:"+n] = true
 		}
 	}
+	for n := range lp.mutexes {
+		a.universe[n] = true
+		a.universe["R:"+n] = true
+	}
 	// helper entry locksets: greatest fixpoint of "intersection of the locksets at all call sites"
 	for _, fd := range lp.funcs {
 		if isHelperName(fd.Name.Name) {
@@ -1130,12 +1225,109 @@ func genLocks(p *pkgInfo, out string) {
 	}
 	a.round(true)
 
+	// ---- guard inference: the explicit list is the minimum; in addition EVERY field of a package struct that is
+	// written under a mutex somewhere must be accessed under that mutex everywhere (reads included), and every field
+	// that is accessed atomically somewhere must be accessed atomically everywhere.
+	type tf struct{ typ, field string }
+	explicit := map[tf]bool{}
+	for _, lf := range lockFields {
+		explicit[tf{lf.typ, lf.field}] = true
+	}
+	byField := map[tf][]lkRow{}
+	for _, r := range a.rows {
+		k := tf{r.typ, r.field}
+		byField[k] = append(byField[k], r)
+	}
+	var inferred []lockField
+	inferNote := map[tf]string{}
+	var keys []tf
+	for k := range byField {
+		keys = append(keys, k)
+	}
+	sort.Slice(keys, func(i, j int) bool {
+		if keys[i].typ != keys[j].typ {
+			return keys[i].typ < keys[j].typ
+		}
+		return keys[i].field < keys[j].field
+	})
+	for _, k := range keys {
+		if explicit[k] || noGuardInference[k.typ+"."+k.field] != "" {
+			continue
+		}
+		nAtomic, nPlain := 0, 0
+		count := map[string]int{}
+		nLockedWrites := 0
+		for _, r := range byField[k] {
+			if r.class == "init" {
+				continue
+			}
+			if r.class == "atomic" {
+				nAtomic++
+				continue
+			}
+			nPlain++
+			if (r.kind == "w" || r.kind == "cw") && r.class == "locked" {
+				excl := 0
+				for _, l := range r.locks {
+					if !strings.HasPrefix(l, "R:") {
+						count[l]++
+						excl++
+					}
+				}
+				if excl > 0 {
+					nLockedWrites++
+				}
+			}
+		}
+		switch {
+		case nAtomic > 0:
+			if nPlain > 0 || true {
+				inferred = append(inferred, lockField{k.typ, k.field, "atomic"})
+				inferNote[k] = fmt.Sprintf("inferred: %d atomic access(es)", nAtomic)
+			}
+		case nLockedWrites > 0:
+			// the guard: the mutex held at most locked writes (ties: alphabetical); every access is then judged against it
+			best, bn := "", 0
+			var ls []string
+			for l := range count {
+				ls = append(ls, l)
+			}
+			sort.Strings(ls)
+			for _, l := range ls {
+				if count[l] > bn {
+					best, bn = l, count[l]
+				}
+			}
+			inferred = append(inferred, lockField{k.typ, k.field, "lock:" + best})
+			inferNote[k] = fmt.Sprintf("inferred: written under %s at %d site(s)", best, bn)
+		}
+	}
+	specAll := append(append([]lockField(nil), lockFields...), inferred...)
+	inSpec := map[tf]bool{}
+	specNames := map[string]bool{}
+	for _, lf := range specAll {
+		inSpec[tf{lf.typ, lf.field}] = true
+		specNames[lf.field] = true
+	}
+	var kept []lkRow
+	for _, r := range a.rows {
+		if inSpec[tf{r.typ, r.field}] {
+			kept = append(kept, r)
+		}
+	}
+	for _, r := range a.unres {
+		if specNames[r.field] {
+			kept = append(kept, r)
+		}
+	}
+	a.rows = kept
+
 	// spec
 	b.WriteString("/-- (type, field, mode): the discipline claimed for each listed shared field -/\n")
 	b.WriteString("def lockSpec : List (String × String × String) := [\n")
-	for i, lf := range lockFields {
+	for i, lf := range specAll {
 		sep := ","
-		if i == len(lockFields)-1 {
+		if i == len(specAll)-1 {
 			sep = ""
 		}
 		st, ok := lp.structs[lf.typ]
@@ -1144,6 +1336,8 @@ func genLocks(p *pkgInfo, out string) {
 			note = "   -- MISSING: type not found"
 		} else if _, ok := st[lf.field]; !ok {
 			note = "   -- MISSING: field not found"
+		} else if n := inferNote[tf{lf.typ, lf.field}]; n != "" {
+			note = "   -- " + n
 		}
 		fmt.Fprintf(&b, "  (%s, %s, %s)%s%s\n", leanStr(lf.typ), leanStr(lf.field), leanStr(lf.mode), sep, note)
 	}
